@@ -912,6 +912,8 @@ func init() {
 
 type chanPipe struct{ obs ro.Observable[<-chan ro.Notification[int]] }
 
+func (p chanPipe) Counted() Pipeline { return P(ro.Count[<-chan ro.Notification[int]]()(p.obs)) }
+
 func (p chanPipe) Subscribe(ctx context.Context, r *rec.Rec, wrapped bool) ro.Subscription {
 	render := func(ch <-chan ro.Notification[int]) string {
 		go func() { // drain so that the producer side is never blocked by the harness
